@@ -534,7 +534,7 @@ def check_hash_clear(rep, mod):
     """a hash bucket that was not (re)initialised is read as a position: the routines that prime the hash tables for a dictionary, and the one that
     saves / restores them, must cover the WHOLE table of the level they serve."""
     R = rep.rule('R-HASH-CLEAR', 'isal_deflate_hash, isal_deflate_process_dict, isal_deflate_reset_dict: every constant-length memset / memcpy whose destination is a hash table array covers the whole array '
-                 '(length = declared element count x element size, read from the IR type of the destination): no bucket keeps a position left over from an earlier stream', floor=9, unit='fills')
+                 '(length = declared element count x element size, read from the IR type of the destination), every fill helper called with a table gets its element count, and every per-level (table, count) pair that bounds a loop agrees: no bucket keeps a position left over from an earlier stream', floor=9, unit='fills')
     for f, i, n, es, ln in irrules.array_fills(mod):
         if f.name not in ('isal_deflate_hash', 'isal_deflate_process_dict', 'isal_deflate_reset_dict'):
             continue
@@ -542,6 +542,220 @@ def check_hash_clear(rep, mod):
         R.check(ln == n * es, mod.where(f, i), '%s: %s of %d bytes into a hash table of %d bytes (%d buckets): the other buckets keep positions from whatever used the level buffer before, which the match finder '
                 'treats as candidates inside the window' % (f.name, i.callee.split('.')[1] if '.' in i.callee else i.callee, ln, n * es, n), key='R-HASH-CLEAR|%s|%d' % (f.name, i.line or 0),
                 sample='%s: %d buckets fully covered' % (f.name, n))
+
+    def array_elems(f, v):
+        """element count of the array whose first element v points to (arraydecay of [N x T]), or None"""
+        for _ in range(4):
+            d = f.defs.get(v)
+            if d is None:
+                return None
+            if d.op == 'bitcast':
+                v = d.ops[0]
+                continue
+            if d.op == 'getelementptr':
+                m = re.match(r'^\[(\d+) x (.+)\]$', d.extra.get('basety', '').strip())
+                idx = [x.split()[-1] for x in d.extra.get('idx', [])]
+                if m and idx == ['0', '0']:
+                    return int(m.group(1))
+            return None
+        return None
+    # element-wise fills: (a) a helper "for (i = 0; i < n; i++) table[i] = v" called with a table and a constant count, (b) a loop over a table / count pair selected per level
+    for fn in ('isal_deflate_hash', 'isal_deflate_process_dict', 'isal_deflate_reset_dict'):
+        f = mod.funcs.get(fn)
+        if f is None:
+            raise AnalysisBroken(fn + ' not found')
+        for i in f.all_insns():
+            if i.op == 'call' and i.callee in mod.funcs and len(i.ops) >= 2 and re.match(r'^\d+$', i.ops[1]):
+                h = mod.funcs[i.callee]
+                if not (h.params and h.params[0][0].endswith('*') and any(j.op == 'store' for j in h.all_insns())):
+                    continue
+                # the helper's loop bound must be its second parameter
+                bound_ok = any(c is not None and c.op == 'icmp' and c.extra['pred'] in ('ult', 'slt') and c.ops[1] == h.params[1][1] for _, _, c in irrules.cond_branches(mod, h))
+                n = array_elems(f, i.ops[0])
+                if n is None or not bound_ok:
+                    continue
+                R.instance()
+                R.check(int(i.ops[1]) == n, mod.where(f, i), '%s: %s sets %s entries of a hash table that has %d: the other buckets keep positions from whatever used the level buffer before' % (fn, i.callee, i.ops[1], n),
+                        key='R-HASH-CLEAR|%s|%s|%s' % (fn, i.callee, i.block), sample='%s: %s covers all %d buckets' % (fn, i.callee, n))
+        for b in f.order:
+            phis = [i for i in f.blocks[b].insns if i.op == 'phi']
+            pp = [i for i in phis if (i.ty or '').endswith('*') and all(array_elems(f, x) is not None for x, _ in i.extra['incoming'])]
+            cp = [i for i in phis if all(re.match(r'^\d+$', x) for x, _ in i.extra['incoming'])]
+            for p_ in pp:
+                for c_ in cp:
+                    if [pb for _, pb in p_.extra['incoming']] != [pb for _, pb in c_.extra['incoming']]:
+                        continue
+                    # the count must bound a loop that stores through the pointer
+                    used = any(c is not None and c.op == 'icmp' and c.extra['pred'] in ('ult', 'slt') and irrules._strip(f, c.ops[1]) == c_.dst for _, _, c in irrules.cond_branches(mod, f))
+                    if not used:
+                        continue
+                    for (x, pb), (k, _) in zip(p_.extra['incoming'], c_.extra['incoming']):
+                        R.instance()
+                        n = array_elems(f, x)
+                        R.check(int(k) == n, mod.where(f, p_), '%s: the arm %s pairs a hash table of %d buckets with a count of %s: the loop over it covers the wrong number of buckets' % (fn, pb, n, k),
+                                key='R-HASH-CLEAR|%s|pair|%s' % (fn, pb), sample='%s: table / count pairs agree (%d)' % (fn, n))
+
+def check_hashentry_position(rep, mod):
+    """The entries of the match hash tables are positions in the stream modulo 64K, compared with the current position (total_in + offset) by every matcher.  A write that
+    (re)initialises a whole table therefore has to express the value it writes in terms of the current position: derived from stream->total_in, or a constant only where
+    total_in == 0 is established.  A table copied in from another object holds positions of another stream; a hashing kernel has to be told the current position."""
+    import c19
+    R = rep.rule('R-HASHENTRY-POSITION', 'every write of a live match hash table (level_buf->lvlN.hash_table / hash_map.hash_table, internal_state.head) by a C function that has the stream, other than '
+                 'through the matchers: the value of memset / wmemset / a fill helper / a store in a loop depends on stream->total_in (entries are stream positions mod 64K) or is written where a branch '
+                 'established total_in == 0; memcpy from another object into a live table is not allowed (positions of another stream must be moved to total_in); a dictionary hashing kernel gets '
+                 'stream->total_in as its current index', floor=9, unit='table writes')
+    zo = c19.field_offsets('struct isal_zstream', ['level_buf', 'total_in', 'internal_state.head'])
+    lo = c19.field_offsets('struct level_buf', ['lvl1.hash_table', 'lvl2.hash_table', 'lvl3.hash_table', 'hash_map.hash_table'], headers=('igzip_lib.h', 'igzip_level_buf_structs.h'))
+    nsites = 0
+    for gn, g in sorted(mod.funcs.items()):
+        sidx = [n for n, (t, _) in enumerate(g.params) if 'struct.isal_zstream*' in t]
+        if not sidx:
+            continue
+        si = sidx[0]
+        live = {('ld', ('param', si, zo['level_buf']), o) for o in set(lo.values())} | {('param', si, zo['internal_state.head'])}
+        P = irrules.prov(mod, g)
+        tin = ('mem', ('param', si, zo['total_in']))
+
+        def is_live(ptr, depth=0):
+            at = P.atoms(ptr)
+            if at and at <= live:
+                return True
+            # an element of a table selected per level: gep with a variable index over a phi of table pointers
+            d = g.defs.get(ptr)
+            if d is None or depth > 6:
+                return False
+            if d.op == 'getelementptr':
+                idx = [x.split()[-1] for x in d.extra.get('idx', [])]
+                if len(idx) == 1 and not re.match(r'^-?\d+$', idx[0]):      # table[i]
+                    return is_live(d.ops[0], depth + 1)
+                return False
+            if d.op == 'phi':
+                return all(is_live(x, depth + 1) for x, _ in d.extra['incoming'])
+            return False
+
+        def from_total_in(v):
+            return tin in P.deps(v)
+
+        def zero_established(block):
+            # every path to the block passes the edge on which (total_in [& mask]) == 0 holds
+            just = set()
+            for b, t, c in irrules.cond_branches(mod, g):
+                if c is None or c.op != 'icmp' or c.extra['pred'] not in ('eq', 'ne') or c.ops[1] != '0' or tin not in P.deps(c.ops[0]):
+                    continue
+                tt, tf = t.extra['targets']
+                just.add((b, tt if c.extra['pred'] == 'eq' else tf))
+            seen, work = set(), [g.entry()]
+            while work:
+                b = work.pop()
+                if b in seen:
+                    continue
+                seen.add(b)
+                work += [s_ for s_ in g.blocks[b].succs if (b, s_) not in just]
+            return block not in seen
+        for i in g.all_insns():
+            where = mod.where(g, i)
+            if i.op == 'store' and is_live(i.ops[1]):
+                nsites += 1
+                R.instance()
+                v = i.ops[0]
+                ok = from_total_in(v) or (re.match(r'^-?\d+$', v) and zero_established(i.block))
+                R.check(ok, where, '%s stores a value into a live hash table that does not depend on stream->total_in: the entry is not a position relative to the current point of the stream' % gn,
+                        key='R-HASHENTRY-POSITION|%s|store|%s' % (gn, i.block), sample='%s: stored entries depend on total_in' % gn)
+            if i.op != 'call' or not i.ops or not is_live(i.ops[0]):
+                continue
+            cal = i.callee or ''
+            nsites += 1
+            R.instance()
+            if re.match(r'^(llvm\.)?memcpy|^(llvm\.)?memmove', cal):
+                R.check(zero_established(i.block), where, '%s copies a table from another object into a live hash table: its entries are positions of another stream (a processed dictionary is hashed as if the stream '
+                        'started with it) and are not moved to the current position total_in' % gn, key='R-HASHENTRY-POSITION|%s|memcpy|%s' % (gn, i.block))
+            elif re.match(r'^(llvm\.)?memset|^wmemset', cal):
+                v = i.ops[1]
+                ok = from_total_in(v) or (re.match(r'^-?\d+$', v) and zero_established(i.block))
+                R.check(ok, where, '%s fills a live hash table with the constant %s where total_in == 0 is not established: position %s of the stream is the last byte of the history only at the start of the stream; '
+                        'later it lies in front of the history (or of the dictionary), and candidates taken from it are read and matched there' % (gn, v, v), key='R-HASHENTRY-POSITION|%s|memset|%s' % (gn, i.block),
+                        sample='%s: %s(%s)' % (gn, cal, 'value from total_in' if from_total_in(v) else 'constant under total_in == 0'))
+            elif cal in mod.funcs and not re.match(r'^isal_deflate_hash', cal):
+                h = mod.funcs[cal]
+                Ph = irrules.prov(mod, h)
+                vals = set()
+                for j in h.all_insns():
+                    if j.op == 'store' and any(a[0] == 'param' and a[1] == 0 for a in Ph.atoms(j.ops[1])):
+                        vals |= {d for d in Ph.deps(j.ops[0])}
+                pv = sorted({d[1] for d in vals if d[0] == 'param'})
+                if not vals or len(pv) != len(vals):
+                    raise AnalysisBroken('R-HASHENTRY-POSITION: %s passes a live hash table to %s, whose stores are not a plain function of its parameters' % (gn, cal))
+                ok = all(k < len(i.ops) and (from_total_in(i.ops[k]) or (re.match(r'^-?\d+$', i.ops[k]) and zero_established(i.block))) for k in pv)
+                R.check(ok, where, '%s fills a live hash table through %s with a value that does not depend on stream->total_in' % (gn, cal), key='R-HASHENTRY-POSITION|%s|%s|%s' % (gn, cal, i.block),
+                        sample='%s: %s(table, n, value from total_in)' % (gn, cal))
+            elif re.match(r'^isal_deflate_hash', cal):
+                # (hash_table, hash_mask, current_index, dict, dict_len)
+                ok = len(i.ops) >= 3 and from_total_in(i.ops[2])
+                R.check(ok, where, '%s hashes a dictionary into a live hash table with a current index that is not stream->total_in' % gn, key='R-HASHENTRY-POSITION|%s|%s|%s' % (gn, cal, i.block),
+                        sample='%s: %s(table, mask, total_in, ...)' % (gn, cal))
+            else:
+                raise AnalysisBroken('R-HASHENTRY-POSITION: %s passes a live hash table to %s, which is not understood' % (gn, cal))
+    if nsites == 0:
+        raise AnalysisBroken('R-HASHENTRY-POSITION: no write of a live hash table found')
+
+
+OUT_PARAMS = [('isal_deflate_process_dict', 1, 'the processed-dictionary structure is produced by this call'),
+              ('isal_gzip_header_init', 0, 'initialiser'), ('isal_zlib_header_init', 0, 'initialiser'),
+              ('isal_deflate_init', 0, 'initialiser of the stream'), ('isal_deflate_stateless_init', 0, 'initialiser of the stream'), ('isal_inflate_init', 0, 'initialiser of the state'),
+              ('isal_create_hufftables', 0, 'the table structure is produced by this call'), ('isal_create_hufftables_subset', 0, 'the table structure is produced by this call'),
+              ('ec_init_tables_base', 3, 'the expanded tables are produced by this call'), ('gf_vect_mul_init', 1, 'the expanded table is produced by this call')]
+
+
+def check_out_not_read(rep, mod):
+    """an object that a function PRODUCES may hold anything when the function is entered; a field read through the output parameter before the function has written it on every path
+    makes the result depend on what the caller's memory happened to contain"""
+    R = rep.rule('R-OUT-NOT-READ', 'functions that produce an object through a pointer parameter (%s): no load through that parameter reads bytes that the function has not stored on every path from its entry '
+                 '(forward must-written dataflow over the offsets stored through the parameter)' % ', '.join('%s#%d' % (a, b) for a, b, _ in OUT_PARAMS), floor=8, unit='functions')
+    for fn, pidx, why in OUT_PARAMS:
+        f = mod.funcs.get(fn)
+        if f is None:
+            raise AnalysisBroken('R-OUT-NOT-READ: %s not found' % fn)
+        R.instance()
+        P = irrules.prov(mod, f)
+
+        def off(ptr):
+            at = P.atoms(ptr)
+            if at and all(a[0] == 'param' and a[1] == pidx for a in at):
+                return {a[2] for a in at}
+            return None
+        IN = {b: None for b in f.order}
+        IN[f.entry()] = frozenset()
+        bad = []
+        changed = True
+        while changed:
+            changed = False
+            for b in f.order:
+                if IN[b] is None:
+                    continue
+                cur = set(IN[b])
+                for i in f.blocks[b].insns:
+                    if i.op == 'load':
+                        o = off(i.ops[0])
+                        if o is not None and not (None not in o and o <= cur):
+                            bad.append(i)
+                    elif i.op == 'store':
+                        o = off(i.ops[1])
+                        if o is not None and None not in o and len(o) == 1:
+                            cur |= o
+                for s_ in f.blocks[b].succs:
+                    nw = frozenset(cur) if IN[s_] is None else IN[s_] & frozenset(cur)
+                    if nw != IN[s_]:
+                        IN[s_] = nw
+                        changed = True
+        seen = set()
+        for i in bad:
+            if (i.block, i.dst) in seen:
+                continue
+            seen.add((i.block, i.dst))
+            R.fail(mod.where(f, i), '%s reads through its output parameter #%d before it has written those bytes (%s): the outcome depends on what the caller\'s memory held before the call' % (fn, pidx, why),
+                   key='R-OUT-NOT-READ|%s|%s' % (fn, i.line or i.block))
+        if not bad:
+            R.ok(1, sample='%s: nothing read through parameter #%d before it is written' % (fn, pidx))
 
 
 def main(tier):
@@ -565,6 +779,8 @@ def main(tier):
     rep.attempt(check_mask_fresh, rep, mod, S)
     rep.attempt(check_dict_tail, rep, mod)
     rep.attempt(check_hash_clear, rep, mod)
+    rep.attempt(check_hashentry_position, rep, mod)
+    rep.attempt(check_out_not_read, rep, mod)
     try:
         import c17_asm
         c17_asm.check(rep)
